@@ -70,6 +70,7 @@ type ReqSpec struct {
 	SepEnd       bool   `json:"sep_end,omitempty"`    // END_STREAM on a separate empty DATA frame
 	RespEarly    bool   `json:"resp_early,omitempty"` // respond before the upload finished
 	NoCL         bool   `json:"no_cl,omitempty"`
+	CLShort      int    `json:"cl_short,omitempty"` // declared Content-Length is that much smaller than the body sent
 	App          string `json:"app"`
 	AppArg       int    `json:"app_arg,omitempty"`    // prefix / cancel point / chunk size
 	RstUpload    int    `json:"rst_upload,omitempty"` // peer RST_STREAM after that many upload bytes (>0)
@@ -161,6 +162,9 @@ func (sc *Scenario) Desc() string {
 		}
 		if r.RespEarly {
 			b.WriteString(" early")
+		}
+		if r.CLShort > 0 {
+			fmt.Fprintf(&b, " clshort=%d", r.CLShort)
 		}
 		fmt.Fprintf(&b, " app=%s/%d", r.App, r.AppArg)
 		if r.RstUpload > 0 {
@@ -500,6 +504,19 @@ func specialScenarios(start int, seed uint64, thorough bool) []*Scenario {
 			{Upload: -1, RespSize: 400000, RespChunk: chunk, App: appCloseNow, StartDelayUs: 3000},
 			{Upload: -1, RespSize: 200000, RespChunk: chunk, NoCL: true, App: appCancel, AppArg: 2000, StartDelayUs: 5000},
 			{Upload: -1, RespSize: 100000, RespChunk: chunk, RespPad: 7, App: appPrefixClose, AppArg: 1, StartDelayUs: 5000},
+		}
+		add(sc)
+	}
+	// S7: the peer sends more body than the Content-Length it declared (within its windows);
+	// the bytes the client takes out of its buffer and drops are consumed data: their
+	// connection credit must come back.
+	for _, short := range []int{1, 30000} {
+		sc := defaultScenario(0, seed, fmt.Sprintf("S7-body-longer-than-content-length-%d", short))
+		sc.PeerSettings = [][2]uint32{{3, 100}}
+		sc.Reqs = []ReqSpec{
+			{Upload: -1, RespSize: 50000, RespChunk: 16384, CLShort: short, App: appReadAll, HoldRead: true},
+			{Upload: -1, RespSize: 40000, RespChunk: 16384, CLShort: short, App: appReadSlow, AppArg: 4097},
+			{Upload: -1, RespSize: 20000, RespChunk: 16384, App: appReadAll},
 		}
 		add(sc)
 	}
